@@ -698,6 +698,17 @@ def record_vs_replay(ctx, uft, root, nforest, boundary_ok):
             o.t = rng.choice(sorted(durs))
             cases.append({"opts": o, "script": script, "kind": kind, "forest": i, "role": "boundary", "durs": durs})
     mcheck.run_cases(ctx, exe, sizes, cases)
+    # libmcount pre-allocates a second shmem buffer per thread that lib/h1.py does not know about: unlink it too
+    for c in cases:
+        for typ, payload in c["raw"]["msgs"]:
+            if typ == "REC_START":
+                name = payload.decode(errors="replace").rstrip("\0")
+                m = re.match(r"^(/uftrace-[0-9a-f]+-\d+-)\d{3}$", name)
+                for k in range(1, 4) if m else ():
+                    try:
+                        os.unlink("/dev/shm" + m.group(1) + "%03d" % k)
+                    except OSError:
+                        pass
     plain = {c["forest"]: mcheck.stream(c["impl"]) for c in cases if c["role"] == "plain"}
     jobs = [c for c in cases if c["role"] != "plain"]
 
@@ -936,7 +947,8 @@ def replay(ctx, path):
     root = os.path.join(ctx.scratch, "dirs")
     os.makedirs(root, exist_ok=True)
     evaluate(ctx, uft, [case], root)
-    mism, bad = assess(case)
+    mism, bad, finding = assess(case)
     print("model/code mismatches:", mism)
     print("property failures:", bad)
-    return 1 if (mism or bad) else 0
+    print("finding:", finding, case.get("disagreement"))
+    return 1 if (mism or bad or finding) else 0
